@@ -14,10 +14,11 @@ import itertools
 
 from vlib import core, sesscheck as sc
 from translate import sess as tr_sess
+from translate import sendtab as tr_sendtab
 
 PROP = "C10"
 PROOF_MODULES = ["Abverif.Proofs.C10"]
-TRANSLATORS = [tr_sess.translate]
+TRANSLATORS = [tr_sess.translate, tr_sendtab.translate]
 TRUSTED = [
     "Lean 4.33 kernel; axioms of every theorem audited to be within {propext, Classical.choice, Quot.sound}",
     "hand-written Lean model Abverif/Model/Session.lean of the Invocation / Interrupt / Registered branches of "
@@ -352,6 +353,9 @@ def check_part_b(ctx, res):
     quick = ctx.tier == "quick"
     by_key, breaks = {}, []
     probe = ["v5", "Uo", "Us", "Uu"]
+    # the table the theorems talk about: generated from the source, read back through the driver
+    gen_table = ctx.driver.run(["sendtable"])[0].split()
+    row = {("ws", "twisted"): 0, ("ws", "asyncio"): 1, ("rs", "twisted"): 2, ("rs", "asyncio"): 3}
     for fw in ("twisted", "asyncio"):
         combos = [(k, s, lim) for k, s in sc.COMBOS for lim in ([LIMITS[k][1], LIMITS[k][-1]] if quick else LIMITS[k])]
         # what does each transport's send() do with each kind of result? (measured on the real code)
@@ -360,6 +364,13 @@ def check_part_b(ctx, res):
         tables = {c: {sp: CLASS.get(x, "other") for sp, x in zip(specs_of[c], o)} for c, o in zip(combos, cls)}
         raw = {c: dict(zip(specs_of[c], o)) for c, o in zip(combos, cls)}
         for c in combos:
+            big = "S%d" % (limit_of(c[0], c[2]) + 200)
+            want = gen_table[2 * row[(c[0], fw)]: 2 * row[(c[0], fw)] + 2]
+            got = [tables[c]["Uo"], tables[c][big]]
+            if want != got:
+                breaks.append({"stream": "send() classification table: generated from the source vs measured on the real transport",
+                               "script": [f"{fw} {c[0]}/{c[1]} limit {limit_of(c[0], c[2])}"], "event": "unserializable, oversize",
+                               "model": " ".join(want), "implementation": " ".join(got)})
             res.count("send-class:%s %s/%s: unserializable object -> %s, oversize -> %s" % (
                 fw, c[0], c[1], raw[c]["Uo"], raw[c]["S%d" % (limit_of(c[0], c[2]) + 200)]))
         cases = {c: real_cases(rng, c[0], c[2], tables[c]) for c in combos}
